@@ -732,69 +732,7 @@ def r7(ctx):
               "the loader does not restore rows / cols / values into matching slots with current_index = number of stored values")
 
 
-def _zero3(e, zero_names):
-    """three-valued `is this expression 0 / falsy` given that the names / paths in zero_names are 0: True, False or None"""
-    if isinstance(e, ast.Constant):
-        return None if e.value is None else (not bool(e.value))
-    if isinstance(e, (ast.Name, ast.Attribute)) and U(e) in zero_names:
-        return True
-    if isinstance(e, ast.Call) and call_name(e) == "max" and not e.keywords:
-        zs = [_zero3(a, zero_names) for a in e.args]
-        if any(z is False for z in zs) and all(isinstance(a, ast.Constant) or _zero3(a, zero_names) is True for a in e.args):
-            return False                                   # max(0, positive constant)
-        return True if zs and all(z is True for z in zs) else None
-    if isinstance(e, ast.Call) and call_name(e) == "int" and len(e.args) == 1:
-        return _zero3(e.args[0], zero_names)
-    if isinstance(e, ast.BinOp) and isinstance(e.op, ast.Mult):
-        zs = [_zero3(e.left, zero_names), _zero3(e.right, zero_names)]
-        return True if any(z is True for z in zs) else (False if all(z is False for z in zs) else None)
-    if isinstance(e, ast.BinOp) and isinstance(e.op, ast.Add):
-        zl, zr = _zero3(e.left, zero_names), _zero3(e.right, zero_names)
-        if zl is True:
-            return zr
-        if zr is True:
-            return zl
-        return None
-    if isinstance(e, ast.BoolOp) and isinstance(e.op, ast.Or):
-        for v in e.values[:-1]:
-            z = _zero3(v, zero_names)
-            if z is not True:
-                return False if z is False else None
-        return _zero3(e.values[-1], zero_names)
-    if isinstance(e, ast.IfExp):
-        t = _truth3(e.test, zero_names)
-        if t is None:
-            a, b = _zero3(e.body, zero_names), _zero3(e.orelse, zero_names)
-            return a if a == b else None
-        return _zero3(e.body if t else e.orelse, zero_names)
-    return None
-
-
-def _truth3(t, zero_names):
-    """three-valued truth of a test under `names in zero_names are the integer 0`"""
-    if isinstance(t, ast.UnaryOp) and isinstance(t.op, ast.Not):
-        v = _truth3(t.operand, zero_names)
-        return None if v is None else not v
-    if isinstance(t, ast.BoolOp):
-        vs = [_truth3(v, zero_names) for v in t.values]
-        if isinstance(t.op, ast.And):
-            return False if any(v is False for v in vs) else (True if all(v is True for v in vs) else None)
-        return True if any(v is True for v in vs) else (False if all(v is False for v in vs) else None)
-    if isinstance(t, ast.Compare) and len(t.ops) == 1:
-        l, r, op = t.left, t.comparators[0], t.ops[0]
-        if isinstance(op, (ast.Is, ast.IsNot)) and isinstance(r, ast.Constant) and r.value is None and _zero3(l, zero_names) is True:
-            return isinstance(op, ast.IsNot)                # 0 is not None
-        zl = _zero3(l, zero_names)
-        if zl is True and isinstance(r, ast.Constant) and isinstance(r.value, (int, float)) and not isinstance(r.value, bool):
-            c = r.value
-            return {ast.Eq: 0 == c, ast.NotEq: 0 != c, ast.Lt: 0 < c, ast.LtE: 0 <= c, ast.Gt: 0 > c, ast.GtE: 0 >= c}.get(type(op))
-        zr = _zero3(r, zero_names)
-        if zr is True and isinstance(l, ast.Constant) and isinstance(l.value, (int, float)) and not isinstance(l.value, bool):
-            c = l.value
-            return {ast.Eq: c == 0, ast.NotEq: c != 0, ast.Lt: c < 0, ast.LtE: c <= 0, ast.Gt: c > 0, ast.GtE: c >= 0}.get(type(op))
-        return None
-    z = _zero3(t, zero_names)
-    return None if z is None else not z
+from .common import zero3 as _zero3, truth3 as _truth3
 
 
 def r8(ctx):
